@@ -1,6 +1,10 @@
 package main
 
 import (
+	"io"
+	"net/http"
+
+	"github.com/nyaruka/gocommon/httpx"
 	"encoding/json"
 	"fmt"
 	"os"
@@ -64,8 +68,30 @@ func loadActionPalette() (assetsJSON map[string]json.RawMessage, palette []json.
 	return
 }
 
+// answers webhook and resthook calls from the URL alone: every status a subscriber can answer with
+type c20Requestor struct{}
+
+func (c20Requestor) Do(client *http.Client, request *http.Request) (*http.Response, error) {
+	body, status := `{"ok":true}`, 200
+	u := request.URL.String()
+	switch {
+	case strings.Contains(u, "gone"):
+		body, status = "gone", 410
+	case strings.Contains(u, "unavailable"):
+		body, status = "unavailable", 503
+	case strings.Contains(u, "missing"):
+		body, status = "not found", 404
+	case strings.Contains(u, "refused"):
+		return nil, fmt.Errorf("connection refused")
+	}
+	return &http.Response{Status: fmt.Sprintf("%d X", status), StatusCode: status, Proto: "HTTP/1.1", ProtoMajor: 1, ProtoMinor: 1,
+		Header: http.Header{"Content-Type": []string{"application/json"}}, Body: io.NopCloser(strings.NewReader(body)), ContentLength: int64(len(body)), Request: request}, nil
+}
+
 func runC20(c *Ctx) {
 	r := c.Rng
+	httpx.SetRequestor(c20Requestor{})
+	defer httpx.SetRequestor(httpx.DefaultRequestor)
 	base, palette, err := loadActionPalette()
 	if err != nil || len(palette) < 50 {
 		c.Fail("monitor", "harness", "palette-unavailable", fmt.Sprintf("cannot load the action palette from the repository testdata: %v (%d actions)", err, len(palette)), nil)
@@ -165,6 +191,24 @@ func runC20(c *Ctx) {
 			n1Actions = append(n1Actions, trOnlyAction)
 			localization["spa"] = map[string]any{trOnly: map[string]any{"quick_replies": []string{"@globals.org_name", "@fields.gender"}, "attachments": []string{"image/jpeg:http://x.com/@fields.age"}}}
 		}
+		if r.Chance(40) {
+			// fields and globals whose keys are also names of functions and router tests
+			refs := []string{"@fields.title", "@contact.fields.code", "@(fields.date)", "@globals.count", "@(globals.min & fields.text)", "@fields.number", "@(upper(contact.fields.title))", "@globals.max"}
+			b, _ := json.Marshal(map[string]any{"uuid": us.next(), "type": "send_msg", "text": "Dear " + Pick(r, refs) + " / " + Pick(r, refs)})
+			n1Actions = append(n1Actions, b)
+		}
+		if r.Chance(35) {
+			// resthooks whose subscribers answer with every kind of status; webhooks likewise
+			if r.Bool() {
+				b, _ := json.Marshal(map[string]any{"uuid": us.next(), "type": "call_resthook", "resthook": Pick(r, []string{"all-gone", "one-gone", "gone-and-down", "gone-and-fine", "refused", "missing", "unpopular-resthook"}),
+					"result_name": Pick(r, []string{"Hook", "Color"})})
+				n1Actions = append(n1Actions, b)
+			} else {
+				b, _ := json.Marshal(map[string]any{"uuid": us.next(), "type": "call_webhook", "method": "GET", "url": Pick(r, []string{"http://gone1.com/", "http://unavailable.com/", "http://refused.com/", "http://fine.com/", "http://missing.com/"}),
+					"result_name": Pick(r, []string{"Hook", "Answer"})})
+				n1Actions = append(n1Actions, b)
+			}
+		}
 		n2node := map[string]any{"uuid": n2, "router": r2, "exits": e2}
 		if a := sameNode(r2); a != nil {
 			n2node["actions"] = a
@@ -189,6 +233,27 @@ func runC20(c *Ctx) {
 			all[k] = v
 		}
 		all["flows"] = []any{main, child}
+		{
+			var fs, gs []any
+			json.Unmarshal(base["fields"], &fs)
+			json.Unmarshal(base["globals"], &gs)
+			for k, key := range []string{"title", "code", "date", "text", "number"} {
+				fs = append(fs, map[string]any{"uuid": fmt.Sprintf("7a1f5c2e-0000-4000-8000-0000000000%02d", k), "key": key, "name": strings.ToUpper(key[:1]) + key[1:], "type": "text"})
+			}
+			for _, key := range []string{"count", "min", "max"} {
+				gs = append(gs, map[string]any{"key": key, "name": strings.ToUpper(key[:1]) + key[1:], "value": "7"})
+			}
+			all["fields"], all["globals"] = fs, gs
+			var rh []any
+			json.Unmarshal(base["resthooks"], &rh)
+			rh = append(rh, map[string]any{"slug": "all-gone", "subscribers": []string{"http://gone1.com/", "http://gone2.com/"}},
+				map[string]any{"slug": "one-gone", "subscribers": []string{"http://gone1.com/"}},
+				map[string]any{"slug": "gone-and-down", "subscribers": []string{"http://gone1.com/", "http://unavailable.com/"}},
+				map[string]any{"slug": "gone-and-fine", "subscribers": []string{"http://gone1.com/", "http://fine.com/"}},
+				map[string]any{"slug": "refused", "subscribers": []string{"http://refused.com/"}},
+				map[string]any{"slug": "missing", "subscribers": []string{"http://missing.com/", "http://gone2.com/"}})
+			all["resthooks"] = rh
+		}
 		aj, _ := json.Marshal(all)
 		desc := map[string]any{"flows": []any{main, child}, "seed": i}
 		src, err := static.NewSource(aj)
@@ -471,7 +536,8 @@ func findRefs(t, top string) []string {
 		for end < len(lower) && (lower[end] == '_' || lower[end] >= 'a' && lower[end] <= 'z' || lower[end] >= '0' && lower[end] <= '9') {
 			end++
 		}
-		if end > start && (idx+j == 0 || !(lower[idx+j-1] >= 'a' && lower[idx+j-1] <= 'z' || lower[idx+j-1] == '_' || lower[idx+j-1] == '.')) {
+		viaContact := top == "fields" && strings.HasSuffix(lower[:idx+j], "@contact.") || strings.HasSuffix(lower[:idx+j], "(contact.")
+		if end > start && (idx+j == 0 || viaContact || !(lower[idx+j-1] >= 'a' && lower[idx+j-1] <= 'z' || lower[idx+j-1] == '_' || lower[idx+j-1] == '.')) {
 			out = append(out, lower[start:end])
 		}
 		idx = end
